@@ -35,6 +35,19 @@ func editEE(msg []byte, typ uint16, body []byte) []byte {
 	return hsMsg(8, b)
 }
 
+// editEEFront is editEE with the extension placed first (extension order in EncryptedExtensions is free).
+func editEEFront(msg []byte, typ uint16, body []byte) []byte {
+	if len(msg) < 6 || msg[0] != 8 {
+		return msg
+	}
+	stripped := editEE(msg, typ, body) // the extension is last now
+	all := stripped[6:]
+	n := 4 + len(body)
+	rest, last := all[:len(all)-n], all[len(all)-n:]
+	out := append(append([]byte{}, last...), rest...)
+	return hsMsg(8, append([]byte{byte(len(out) >> 8), byte(len(out))}, out...))
+}
+
 func alpnBody(p string) []byte {
 	return append([]byte{0, byte(1 + len(p)), byte(len(p))}, p...)
 }
